@@ -89,12 +89,20 @@ is_ipv6 (const char *start, const char *end)
                 /* bad null last field in IPv6 address */
                 return (NO);
             }
+            else if (null_field == 0 && field != 7) {
+                /* without `::' there must be 8 fields */
+                return (NO);
+            }
             else
                 return (YES);
         case '.':
             /* Terminate the loop. */
             if (field < 2 || field > 6) {
                 /* malformed IPv4-in-IPv6 address */
+                return (NO);
+            }
+            else if (null_field == 0 && field != 6) {
+                /* without `::' there must be 6 fields before IPv4 */
                 return (NO);
             }
             else
